@@ -241,6 +241,9 @@ struct ReadyRecord {
     last_entry: Option<(u64, u64)>,
     // (index, term) of the snapshot in Ready
     snapshot: Option<(u64, u64)>,
+    // whether this Ready carries a change of term or vote (or took over such a
+    // Ready's record when the node became leader)
+    term_vote_changed: bool,
 }
 
 /// LightReady encapsulates the commit index, committed entries and
@@ -499,6 +502,12 @@ impl<T: Storage> RawNode<T> {
             ..Default::default()
         };
 
+        // A term or vote that is not known to be persisted yet. Only a node that
+        // elected itself with its own vote alone can be leader in that situation.
+        let mut term_vote_unpersisted = self.records.iter().any(|r| r.term_vote_changed);
+        rd_record.term_vote_changed = term_vote_unpersisted
+            && self.prev_ss.raft_state != StateRole::Leader
+            && raft.state == StateRole::Leader;
         if self.prev_ss.raft_state != StateRole::Leader && raft.state == StateRole::Leader {
             // The vote msg which makes this peer become leader has been sent after persisting.
             // So the remaining records must be generated during being candidate which can not
@@ -517,6 +526,8 @@ impl<T: Storage> RawNode<T> {
         if hs != self.prev_hs {
             if hs.vote != self.prev_hs.vote || hs.term != self.prev_hs.term {
                 rd.must_sync = true;
+                rd_record.term_vote_changed = true;
+                term_vote_unpersisted = true;
             }
             rd.hs = Some(hs);
         }
@@ -554,7 +565,9 @@ impl<T: Storage> RawNode<T> {
 
         // Leader can send messages immediately to make replication concurrently.
         // For more details, check raft thesis 10.2.1.
-        rd.is_persisted_msg = raft.state != StateRole::Leader;
+        // That presumes its term and vote are persisted, which the vote round
+        // trip guarantees unless the node won with its own vote alone.
+        rd.is_persisted_msg = raft.state != StateRole::Leader || term_vote_unpersisted;
         rd.light = self.gen_light_ready();
         self.records.push_back(rd_record);
         rd
